@@ -83,13 +83,37 @@ class FwdChildSchema(FwdSchema):
     """hooks inherited from a user-defined custom parent class"""
 
 
+class FwdKwargsSchema(CustomSchema[FwdProps], absn.Fwd):
+    """hooks that name no keyword themselves: everything they are given travels in **kwargs"""
+
+    def __call__(self, inner):
+        if not isinstance(inner, Schema):
+            raise DeclarationError(f"verif_fwd: expected a schema, got {inner!r}")
+        if self.props.inner is not Nil:
+            raise DeclarationError("verif_fwd is already declared")
+        return self.__class__(self.props.update(inner=inner))
+
+    def __validate__(self, visitor, **kwargs):
+        return self.props.inner.__accept__(visitor, **kwargs)
+
+    def __generate__(self, visitor, **kwargs):
+        return self.props.inner.__accept__(visitor, **kwargs)
+
+    def __represent__(self, visitor, **kwargs):
+        return self.props.inner.__accept__(visitor, **kwargs)
+
+    def __substitute__(self, visitor, **kwargs):
+        return self.__class__(self.props.update(inner=self.props.inner.__accept__(visitor, **kwargs)))
+
+
 register_type(TYPE_NAME + "_mixin", FwdMixinSchema)
 register_type(TYPE_NAME + "_child", FwdChildSchema)
-_FACADES = [TYPE_NAME, TYPE_NAME + "_mixin", TYPE_NAME + "_child"]
+register_type(TYPE_NAME + "_kwargs", FwdKwargsSchema)
+_FACADES = [TYPE_NAME, TYPE_NAME + "_mixin", TYPE_NAME + "_child", TYPE_NAME + "_kwargs"]
 
 
 def fwd(inner, which=0):
-    """Declare through the public facade: schema.verif_fwd(inner) (which: 0 class body, 1 mixin, 2 child)."""
+    """Declare through the public facade: schema.verif_fwd(inner) (which: 0 class body, 1 mixin, 2 child, 3 **kwargs-only hooks)."""
     return getattr(schema, _FACADES[which % len(_FACADES)])(inner)
 
 
